@@ -1,6 +1,7 @@
 import Driver.Common
-namespace Rtp.Kinds.Core
+import Driver.PacketIO
+namespace Rtp.Kinds.CoreB
 open Rtp Rtp.Proto
 
 def handlers : List (String × Handler) := []
-end Rtp.Kinds.Core
+end Rtp.Kinds.CoreB
